@@ -21,6 +21,22 @@ TRUST = ("trusted base: simrt/simgen (instrumentation changes who picks timer, l
 
 # id -> (engine, design section, technique, text)
 CHECKS = {
+ "C01": ("ribsim", "5/C01", "deterministic simulation runtime driving the table API: seeded operation histories against a prefix-map reference model",
+         "seeded histories of AddPath / RemovePath / ReplacePath / RemovePfx on RoutingTable over IPv4 and IPv6 prefixes that share long stems (every length on a stem, siblings differing in one bit, default and host routes); after every operation Get, LPM, GetLonger (also for queries that are not stored), Dump and the route count are compared with a prefix map whose containment is computed on raw address bits"),
+ "C02": ("ribsim", "5/C02", "deterministic simulation runtime: metamorphic arrival-order permutations of candidate sets on fresh Loc-RIBs",
+         "candidate sets of 2-5 BGP/static paths from the property's bounded attribute domain are installed on fresh Loc-RIBs under all (up to 120) arrival orders with noise paths added and removed in between; best path and ECMP set (up to paths the decision process cannot distinguish) must not depend on the order; the preference relation on the set must be antisymmetric, transitive and tie only indistinguishable paths"),
+ "C04": ("ribsim", "5/C04", "deterministic simulation runtime: recording clients vs the Loc-RIB's selection after every operation",
+         "histories interleaving path add/remove on a Loc-RIB with client registration, unregistration and refresh for best-only / ECMP-only / max-paths 1..4 clients; after every operation each client's accumulated set (initial dump + adds - removes) must equal the first paths of the Loc-RIB's current selection its option admits; any callback after Unregister returned is a violation"),
+ "C18": ("bgpsim", "5/C18", "deterministic simulation: controlled aggregation windows with 1..3000 prefixes and attribute sizes around the message budget",
+         "a source announces up to 3000 prefixes with one attribute set (AS paths up to 900 ASNs, up to 80 communities) inside one aggregation window; towards IPv4 classic / MP IPv6 / add-path / 2-octet-AS sessions every UPDATE must be at most 4096 bytes and decodable, no prefix may be announced twice in the flush, and the peer's view must equal the reference export of the Loc-RIB (nothing lost, attributes kept)"),
+ "C23": ("bgpsim", "5/C23", "deterministic simulation: generated event sequences checked for membership in an executable RFC 4271 FSM relation",
+         "random sequences of connection events, valid/invalid OPEN, KEEPALIVE, valid/malformed UPDATE, NOTIFICATION, header errors, TCP failure and timer expiry (by moving simulated time) against a hand-scripted neighbour; after every event the observed abstract step must be allowed by the reference relation, routes attached iff Established, UPDATEs have no effect outside Established, every return to Idle closes the connection. Only the implementation-trace half of the property is decided; the exhaustive enumeration of the abstract model is model checking and is not done"),
+ "C24": ("bgpsim", "5/C24", "deterministic simulation: outgoing connection through the Dial seam colliding with an incoming one, interleaving chosen by the plan",
+         "the neighbour is an active peer (the DUT dials through the overlay's Dial seam) and also connects in; OPEN/KEEPALIVE deliveries on both connections are ordered by the plan (clean collision, racy delays, late second connection) for identifier orderings incl. equal identifiers with different AS; never two Established or two contributing FSMs, exactly one session afterwards, the loser closed with Cease, and in the clean collision the survivor is the connection initiated by the speaker with the higher identifier (RFC 4271 6.8 / RFC 6286)"),
+ "C25": ("bgpsim + ribsim", "5/C25", "deterministic simulation with a seeded scheduler at every lock acquisition; waits-for cycle detection and bounded liveness in simulated time",
+         "route updates from live sessions, policy replacements, DisposePeer, Metrics, RIB dumps, static routes (bgpsim) and bare table operations, client (un)registration, refresh, export policy replacement and Loc-RIB disposal (ribsim) are released together and interleaved by the seeded gate scheduler at every simulator-mutex acquisition; a waits-for cycle in the logical lock table or an operation / goroutine still blocked after 600 simulated seconds of quiescence is a violation; afterwards the tables must still serve a fresh operation"),
+ "C29": ("ribsim", "5/C29", "deterministic simulation runtime: source histories against a route -> advertiser-set model, concurrent sources under the gate scheduler",
+         "2-4 sources call MergedLocRIB's client interface (the gRPC stream is stubbed): advertisements including repeated ones, withdrawals and source drops, sequentially and concurrently (one caller per source, interleaved at lock boundaries); the underlying Loc-RIB must contain a route iff the model's advertiser set is non-empty"),
  "C05": ("bgpsim", "5/C05", "deterministic simulation: stage-wise reference import model over seeded histories with session flaps",
          "seeded simulated histories (announce / implicit replace / withdraw, add-path RX on/off, iBGP/eBGP, accept/reject-some/rewriting import policies, clean session flaps and re-establishment, fragmentation, delay) against the real FSMs and tables; at every quiescent checkpoint the Loc-RIB paths of each source must equal reference-import(actual Adj-RIB-In dump)"),
  "C06": ("bgpsim", "5/C06", "deterministic simulation: generator-labelled ineligible announcements, invariant after every step",
@@ -75,7 +91,8 @@ def main():
             "add_only": True,
         },
         "engines": [
-            {"name": "bgpsim", "path": "harness/bgp", "serves_properties": sorted(CHECKS), "kind_free_text": "real bio-rd BGP server, FSMs and RIB pipeline inside a testing/synctest bubble with simulator-owned timers, mutexes and map order; scripted peers over a simulated TCP"},
+            {"name": "bgpsim", "path": "harness/bgp", "serves_properties": sorted(p for p in CHECKS if "bgpsim" in CHECKS[p][0]), "kind_free_text": "real bio-rd BGP server, FSMs and RIB pipeline inside a testing/synctest bubble with simulator-owned timers, mutexes and map order; scripted peers over a simulated TCP"},
+            {"name": "ribsim", "path": "harness/bgp (ribsim_*.go, same test binary)", "serves_properties": sorted(p for p in CHECKS if "ribsim" in CHECKS[p][0]), "kind_free_text": "the same simulation runtime driving the real table APIs (RoutingTable, LocRIB, AdjRIBOut, ClientManager, MergedLocRIB) from simulated caller tasks with a seeded scheduler at lock boundaries"},
         ],
         "checks": checks,
         "notes": "every check: exit 0 held (KNOWN-FINDING lines for findings/known_findings.json), exit 1 + VIOLATION line, exit 2 infrastructure. VERIF_SEED and VERIF_TIER are honoured.",
